@@ -268,7 +268,22 @@ def interegular_to_wfsa(pattern, charset="core", name=lambda x: x):
         m = WFSA(Float)
         m.add_I(name(fsm.initial), 1)
 
-        rejection_states = [e for e in fsm.states if not fsm.islive(e)]
+        # States from which no final state can be reached over this character set
+        # (`fsm.islive` also counts `anything_else` transitions, which may expand
+        # to no character at all, and multi-character symbols, which are skipped).
+        live = set(fsm.finals)
+        changed = True
+        while changed:
+            changed = False
+            for i in fsm.states:
+                if i in live:
+                    continue
+                for a, j in fsm.map[i].items():
+                    if j in live and any(len(A) == 1 for A in expand_alphabet(a)):
+                        live.add(i)
+                        changed = True
+                        break
+        rejection_states = [e for e in fsm.states if e not in live]
         for i in fsm.states:
             # determine this state's fan out
             K = 0
